@@ -218,10 +218,23 @@ def _replay_instance(inst, eps=0):
         gs = g.init(jax.random.PRNGKey(1), starting_eps=eps)
         fixtures.CALL_LOG.clear()
         g.rollout(gs)
-        # the logging callback returns payload h(args); rebuild emitted values per (node, seq) from the log itself
+        log = list(fixtures.CALL_LOG)
+        # the gym-style drive reaches the schedule's last row, which rollout() never executes: reset, then max_steps x step
+        fixtures.CALL_LOG.clear()
+        gs2, _ = g.reset(g.init(jax.random.PRNGKey(1), starting_eps=eps))
+        for _ in range(g.max_steps):
+            gs2, _ = g.step(gs2)
+        log2 = list(fixtures.CALL_LOG)
+        return _log_mismatch(nodes, log) or _log_mismatch(nodes, log2)
+    except BaseException:  # noqa
+        return None
+
+
+def _log_mismatch(nodes, log):
+    """the logging callback returns payload h(args); rebuild emitted values per (node, seq) from the log itself and compare every window entry"""
+    if True:
         emitted = {}
         bad = False
-        log = list(fixtures.CALL_LOG)
         for tag, a in log:
             kind = tag[len("oracle_step_"):]
             ai = 4
@@ -238,10 +251,10 @@ def _replay_instance(inst, eps=0):
             h = (sum(ord(ch) for ch in tg) % 17) * 0.0625
             for i, x in enumerate(a):
                 h += float(np.sum(np.asarray(x, dtype=np.float64))) * (0.5 + 0.25 * i + (sum(ord(ch) for ch in tg) % 5) * 0.125)
+            if (kind, int(a[0])) in emitted:
+                bad = True  # a step with this sequence number ran twice
             emitted[(kind, int(a[0]))] = float(np.float32(2 * 0.125 + h))
         return bad
-    except BaseException:  # noqa
-        return None
 
 
 def worker_instance(cfg, tier):
